@@ -176,7 +176,9 @@ PROPS = {
                 # "the outcome does not depend on uninitialised data": the same plans under valgrind (one plan per process)
                 + [job("completion_chain", "throws", 12, 300, variants=["M", "B"], valgrind=True),
                    job("nest2_mixed", "throws", 8, 200, variants=["M", "B"], valgrind=True)]
-                + rand_jobs("struct", ["throws"], 0, 6000) + rand_jobs("compl", ["throws"], 0, 6000) + rand_jobs("pseudo", ["throws"], 0, 6000),
+                + rand_jobs("struct", ["throws"], 0, 6000) + rand_jobs("compl", ["throws"], 0, 6000) + rand_jobs("pseudo", ["throws"], 0, 6000)
+                # the same under ASan / UBSan on a few random specs (thorough tier)
+                + [dict(j, san="_asan", thorough=1500) for j in rand_jobs("compl", ["throws"], 0, 1, nthorough=4) + rand_jobs("pseudo", ["throws"], 0, 1, nthorough=2)],
         "nontrivial": ["throw"],
         "rule": "fault injection: 1-2 exceptions per faulty op thrown from a guard / exit / action / entry position chosen among the "
                 "callbacks the op actually reaches (dry run on the model), plus posts, under all four switch policies; lockstep + "
@@ -251,7 +253,8 @@ PROPS = {
                    job("queue_nested", "storage", 200, 5000, variants=ALLV, san="_asan"),
                    job("defer_basic", "storage", 200, 5000, variants=ALLV, san="_asan")]
                 + rand_jobs("sto", ["storage", "queue", "fork"], 400, 6000, nthorough=8)
-                + [dict(j, san="_asan", quick=(150 if j["quick"] else 0), thorough=2000) for j in rand_jobs("sto", ["storage"], 1, 1, nthorough=4)],
+                + [dict(j, san="_asan", quick=(150 if j["quick"] else 0), thorough=2000) for j in rand_jobs("sto", ["storage"], 1, 1, nthorough=4)]
+                + [dict(j, san="_asan", thorough=1500) for j in rand_jobs("dfm", ["queue", "fork"], 0, 1, nthorough=3) + rand_jobs("struct", ["queue"], 0, 1, nthorough=2)],
         "nontrivial": ["queued"],
         "rule": "histories of submit / defer / dispatch / copy / assign / move / clear / stop / destroy with events pending, over event "
                 "classes of 9..520 bytes, alignment up to 64, trivially copyable / non-trivial / potentially-throwing move / self-referential; "
